@@ -2705,14 +2705,16 @@ impl LineBuf {
 				} else if let Some((_,end)) = self.select_lines_down(count.saturating_sub(1)) {
 					end
 				} else {
-					self.end_of_line()
+					// there are not that many lines below
+					return MotionKind::Null
 				};
 				// end_of_line() is exclusive and counts the terminator: step back onto it
 				let mut pos = pos;
 				if pos > 0 && self.grapheme_at(pos - 1) == Some("\n") {
 					pos -= 1;
 				}
-				let appending = matches!(verb, Some(Verb::InsertMode));
+				// an operator ('d$', 'A') works up to the terminator, so that the last character is included
+				let appending = verb.is_some();
 				if !appending && self.grapheme_at(pos) == Some("\n") && pos > 0 && self.grapheme_at(pos - 1) != Some("\n") {
 					// If we are at the end of the line, we want to go back one
 					// So we don't land on the newline
